@@ -67,6 +67,89 @@ def child_of_late(gt, job, late):
     return False
 
 
+def stuck_on_done_output(case, r1, jobs, missing):
+    """Are all missing jobs instances that the restarted scheduler left
+    waiting on an output their parent's job really produced (or instances
+    downstream of / runahead-blocked by such)?"""
+    gt = case['gt']
+    texts = case.get('messages', {})
+    stuck = []
+    for t in r1.get('final_pool') or []:
+        if t['status'] != 'waiting':
+            continue
+        for pt, name, out, sat, _ in t['prereqs']:
+            if sat:
+                continue
+            js = [j for k, j in jobs.items() if k.startswith(f'{pt}/{name}/')]
+            label = {v: k for k, v in texts.get(name, {}).items()}.get(
+                out, out)
+            done = any(
+                (label == 'submitted') or
+                (label == 'started' and j['started']) or
+                (label in ('succeeded', 'failed') and j['state'] == label) or
+                (label in j['emitted'])
+                for j in js)
+            if done:
+                stuck.append([t['id'], None])
+                break
+    if not stuck:
+        return False
+    ids = {x for x, _ in stuck}
+    pmin = min(int(x.split('/')[0]) for x in ids)
+    for m in missing:
+        tid = m.rsplit('/', 1)[0]
+        if tid in ids or child_of_late(gt, m, stuck):
+            continue
+        if int(tid.split('/')[0]) > pmin:
+            continue        # held back by the runahead limit behind it
+        return False
+    return True
+
+
+def effects_lost(case, r1, missing):
+    """Every missing job is an instance with a prerequisite on an output
+    that the restart found already recorded in the DB for a task it loaded
+    active (so the poll re-reporting it propagated nothing), or is
+    downstream of / runahead-blocked behind such an instance."""
+    known = ((r1.get('monitors') or {}).get('ledger') or {}).get(
+        'repolled_known_outputs') or []
+    if not known:
+        return False
+    gt = case['gt']
+    rec = {}
+    for tid, outs in known:
+        rec.setdefault(tid, set()).update(outs)
+    direct = []
+    rest = []
+    for m in missing:
+        tid = m.rsplit('/', 1)[0]
+        p, n = tid.split('/', 1)
+        p = int(p)
+        hit = False
+        for ar in wfgen.arrows_at(gt, n, p):
+            for a in wfgen.atoms(ar):
+                q = wfgen.atom_point(a, p)
+                outs = rec.get(f'{q}/{a[1]}')
+                if outs is None:
+                    continue
+                want = ({'succeeded', 'failed'} if a[3] == 'finished'
+                        else {a[3]})
+                if want & outs:
+                    hit = True
+        (direct if hit else rest).append(m)
+    if not direct:
+        return False
+    dids = [[m.rsplit('/', 1)[0], None] for m in direct]
+    pmin = min(int(x[0].split('/')[0]) for x in dids)
+    for m in rest:
+        if child_of_late(gt, m, dids):
+            continue
+        if int(m.split('/')[0]) > pmin:
+            continue
+        return False
+    return True
+
+
 def run_case(ctx, i, rng):
     feat = wfgen.Features(retries=rng.random() < 0.4, max_tasks=5,
                           max_final=4)
@@ -149,11 +232,24 @@ def run_case(ctx, i, rng):
                     where = 'poll-result-after-task-removed'
                 elif refused and where == 'mid-run' and all(
                         m.rsplit('/', 1)[0] in {x for x, _ in refused}
-                        or child_of_late(gt, m, refused) for m in missing):
+                        or child_of_late(gt, m, refused)
+                        # (the parentless chain of a refused task stops too)
+                        or any(m.split('/')[1] == x.split('/', 1)[1]
+                               and int(m.split('/')[0]) > int(x.split('/')[0])
+                               for x, _ in refused)
+                        for m in missing):
                     # killed between the early commit of the new task_states
                     # row and the pool-table write: the restart finds history
                     # without outputs and takes the task for a suicided one
                     where = 'respawn-refused-states-row-without-pool-row'
+                elif where == 'mid-run' and (stuck_on_done_output(
+                        case, r1, jobs, missing) or effects_lost(
+                            case, r1, missing)):
+                    # killed between the commit that recorded a parent's
+                    # output and the end-of-loop commit of the child's
+                    # prerequisites: the restart learns nothing new from the
+                    # poll (output already recorded) and the child waits
+                    where = 'output-committed-before-kill-effects-lost'
                 ctx.violation(
                     f'C20:work-lost:{where}',
                     f'after a kill at {kind} {at} and restart, jobs '
